@@ -35,7 +35,7 @@ def run(env, rep):
         "length gate for its own size, and every Ok return that does not advance the stage (a suspension) leaves self untouched; "
         "R3: on the path that stores Complete the remaining_bytes returned are the rest of the input buffer (drain of the full "
         "range, collected), and process_bytes forwards exactly that value into its Completed result; R4: the responses are the "
-        "version byte 3 followed by a 1536-byte packet (1537 bytes), and one 1536-byte packet.  Not decided: completion of two "
+        "version byte 3 followed by a 1536-byte packet (1537 bytes), and one 1536-byte packet.  R6: an error built by the handshake code is decided by the version byte, the stage (a call after completion) or a digest comparison - never by the number of bytes delivered or buffered.  Not decided: completion of two "
         "instances against each other under all interleavings.")
     pbk = body_by_pretty(prog, "handshake::Handshake::process_bytes")
     if pbk is None:
@@ -249,6 +249,41 @@ def run(env, rep):
                         lens.add(const_val(ln) if const_val(ln) is not None else stable(ln))
         rep.check("C05.R4", "p2-size", lens == {1536}, "packet 2 (signed or echoed) is 1536 bytes", "the response to packet 1 has length %s (expected 1536)" % sorted(map(str, lens)), p1.span)
 
+    # ------------------------------------------------------------------ R6 what the handshake refuses
+    # "completes without error under every fragmentation": an error built by the handshake code is decided by the version byte, by the
+    # stage (a call after completion) or - inside the digest search, whose failure the packet-1 stage answers with an echo - by a
+    # digest comparison; never by how many bytes a call delivered or how many are buffered
+    from ..framework import wants as _w
+    if _w(rep, "C05.R6"):
+        pbk = body_by_pretty(prog, "handshake::Handshake::process_bytes")
+        n6 = 0
+        if pbk is None:
+            rep.anchor_missing("C05.R6", "handshake::Handshake::process_bytes")
+        else:
+            for k in sorted(prog.reachable_from([pbk.key])):
+                hb = prog.bodies.get(k)
+                if hb is None or hb.kind == "promoted" or "handshake" not in hb.key:
+                    continue
+                ex = grammar.Extractor(env, hb.key, "r")
+                ex.run()
+                seen = set()
+                for p in ex.paths:
+                    rets = [t for t in p if t[0] == "returns"]
+                    if not rets or not str(rets[-1][1]).startswith("Err(HandshakeError::"):
+                        continue
+                    whens = [t for t in p if t[0] == "when"]
+                    last = whens[-1][1] if whens else ""
+                    err = re.sub(r"\(.*", "", str(rets[-1][1])[4:])
+                    ok = bool(re.search(r"current_stage|^\(?elem\[0\]|seqeq\(|digest", last)) and "len" not in last
+                    if (err, ok) in seen:
+                        continue
+                    seen.add((err, ok))
+                    n6 += 1
+                    rep.check("C05.R6", "%s|refuses:%s" % (hb.pretty.split("::")[-1], err.split("::")[-1]), ok,
+                              "%s builds %s on a decision about %s" % (hb.pretty.split("::")[-1], err.split("::")[-1], "the stage" if "current_stage" in last else "the version byte" if "elem" in last else "a digest comparison"),
+                              "%s builds the error %s on the decision [%s]: the handshake may refuse a wrong version byte or a call after completion, but must complete under every "
+                              "fragmentation - however many bytes one call delivers or are buffered (trailing application data included)" % (hb.pretty, err, last[:120]), hb.span)
+            rep.floor("C05.R6", "errors built by the handshake code", n6, 2)
     # ------------------------------------------------------------------ R5 the packet-1 stage answers every peer (C11 R4)
     from ..framework import PrefixReport, wants
     from . import C11
